@@ -63,6 +63,9 @@ class Result:
             self.nt_count += 1
         else:
             self.nt_hashes.add(h64(key if key is not None else case))
+            if case is None and len(self.samples) < 3:
+                # keep the distinguishing key itself as a written-out sample
+                self.samples.append({"case_key": key})
         if sample and case is not None and len(self.samples) < 3:
             self.samples.append(case)
 
